@@ -85,6 +85,10 @@ func (c *cacheConfig) validate() (err error) {
 		return newNegativeError("size", c.Size)
 	case c.Type == cacheTypeECS && c.ECSSize < 0:
 		return newNegativeError("ecs_size", c.ECSSize)
+	case c.Type == cacheTypeECS && c.Size > 0 && c.ECSSize == 0:
+		// A zero size only disables the cache as a whole, see toInternal; the
+		// ECS-aware cache itself cannot be built with an empty half.
+		return newNotPositiveError("ecs_size", c.ECSSize)
 	default:
 		// Go on.
 	}
